@@ -20,7 +20,13 @@ RULE = (
     "one up to delta, apply a PointCloud, apply a PointCloud / TriMesh / LandmarkManager carrying 1-2 landmark groups that "
     "equal the points up to delta (several _apply calls in one public apply), apply the same values in 2-3 dtypes / memory "
     "layouts, apply with batch size k in {1,2,3,n-1,n,n+1,2n+1}, apply a mix of 0..6 in-domain and 1..3 out-of-domain "
-    "points (PWA; far away or inside a removed triangle)}. Every array apply() hands back is kept: it must not alias "
+    "points (PWA; far away or inside a removed triangle), apply an earlier input's values in a form that ALIASES MEMORY THE "
+    "CALLER STILL OWNS (read-only view of a writeable base, C or Fortran order; np.broadcast_to rows; every second row of a "
+    "larger buffer; column-swapped view; Fortran-ordered array; window into a longer buffer; np.frombuffer over a bytearray, "
+    "writeable or through a read-only memoryview) and then 1-3 times: the owner edits the buffer in place (one coordinate by "
+    "delta / refill with other in-domain rows / PWA: write an out-of-domain point) and the same array object is applied "
+    "again with batch size in {None,1,2,n-1,n,n+1,2n+1}, sometimes with an apply of another array in between; such arrays "
+    "join the pool, so the other steps re-use them and edit them through the owner}. Every array apply() hands back is kept: it must not alias "
     "the argument or another result, must not change when arrays passed earlier are edited or later applies happen, "
     "and writing into it must not reach the argument. Non-trivial: >= 3 applies of which >= 1 re-uses or perturbs an "
     "earlier input (history clause); k does not divide n (batch clause); both inside and outside points present, the "
@@ -286,12 +292,30 @@ def s_history(draw):
     steps = [["apply_new", _pts_spec(draw, tc, 2, 7)]]
     n_steps = draw(st.integers(3, 12))
     kinds = ["apply_new", "apply_again", "mutate_apply", "mutate_apply", "apply_near", "apply_shape", "apply_batched", "apply_lm_shape", "apply_recast"]
+    kinds += ["apply_alias", "apply_alias"]
     if pwa:
         kinds += ["apply_mixed", "apply_mixed"]
     for _ in range(n_steps - 1):
         k = draw(st.sampled_from(kinds))
         if k == "apply_new":
             steps.append([k, _pts_spec(draw, tc)])
+        elif k == "apply_alias":
+            # an earlier input's values in a form that aliases memory the caller still owns; applied, then 1-3 times:
+            # the OWNER edits the buffer (one coordinate / refills it with other in-domain values / - piecewise affine -
+            # writes an out-of-domain point into it) and the very same array object is applied again, unbatched or batched
+            edits = []
+            for _e in range(draw(st.integers(1, 3))):
+                ek = draw(st.sampled_from(["perturb", "perturb", "refill", "refill"] + (["outside"] if pwa else [])))
+                e = {"k": ek, "bs": draw(st.sampled_from(ALIAS_BATCHES)), "between": draw(st.sampled_from([None, None, None, "before", "after"])),
+                     "i": draw(st.integers(0, 31)), "j": draw(st.integers(0, 31))}
+                if ek == "perturb":
+                    e["dl"] = draw(st.sampled_from(DELTAS[:4] if pwa else DELTAS)) * draw(st.sampled_from([1, -1]))
+                elif ek == "outside":
+                    e["ang"] = draw(gen.q(-3.14, 3.14))
+                    if tc.get("drop") and draw(st.booleans()):
+                        e["hole"] = draw(objs.bary_picks(1, 1))[0]
+                edits.append(e)
+            steps.append([k, draw(st.integers(0, 31)), draw(st.sampled_from(ALIAS_FORMS)), draw(st.sampled_from(ALIAS_BATCHES)), edits])
         elif k in ("apply_again", "apply_shape"):
             steps.append([k, draw(st.integers(0, 31))])
         elif k in ("mutate_apply", "apply_near"):
@@ -350,6 +374,47 @@ def _recast(v, name):
     return rev[::-1]
 
 
+# input-array forms that ALIAS CALLER-OWNED MEMORY: what apply() is handed is a legal ndarray whose bytes somebody else
+# (the owner of the buffer) keeps writing to. Read-only ones cannot be written THROUGH, but are not constant either.
+ALIAS_FORMS = ["ro_view", "ro_view", "broadcast", "strided_rows", "colswap", "fortran", "fortran_ro", "window", "frombuffer", "frombuffer_ro"]
+ALIAS_BATCHES = ["none", "none", "none", "n", "n+1", "2n+1", "n-1", "1", "2"]
+
+
+def _alias(v, form):
+    """(view, twin): `view` holds the values of the float64 (n, d) array v in the given aliasing form; `twin` is a
+    WRITEABLE array of the same shape over the same memory (the owner's handle: twin[r, c] = ... edits what view shows)."""
+    from numpy.lib.stride_tricks import as_strided
+
+    n, d = v.shape
+    if form in ("ro_view", "fortran_ro"):
+        base = np.array(v, order="F" if form == "fortran_ro" else "C", copy=True)
+        view = base.view()
+        view.setflags(write=False)
+        return view, base
+    if form == "broadcast":  # every row is the same row of memory
+        row = v[0].copy()
+        return np.broadcast_to(row, (n, d)), as_strided(row, shape=(n, d), strides=(0, row.strides[0]))
+    if form == "strided_rows":  # every second row of a larger buffer, without its last column
+        big = np.full((2 * n + 1, d + 1), 7.5)
+        big[1::2, :d] = v
+        return big[1::2, :d], big[1::2, :d]
+    if form == "colswap":  # columns stored in the opposite order
+        base = np.array(v[:, ::-1], copy=True)
+        return base[:, ::-1], base[:, ::-1]
+    if form == "fortran":
+        base = np.array(v, order="F", copy=True)
+        return base, base
+    if form == "window":  # a window into a longer buffer (which is refilled later)
+        big = np.full((n + 4, d), 3.25)
+        big[2 : 2 + n] = v
+        return big[2 : 2 + n], big[2 : 2 + n]
+    ba = bytearray(np.ascontiguousarray(v).tobytes())
+    twin = np.frombuffer(ba, dtype=float).reshape(n, d)
+    if form == "frombuffer":
+        return np.frombuffer(ba, dtype=float).reshape(n, d), twin
+    return np.frombuffer(memoryview(ba).toreadonly(), dtype=float).reshape(n, d), twin
+
+
 def c_history(case, ctx):
     from menpo.shape import TriMesh
 
@@ -366,6 +431,7 @@ def c_history(case, ctx):
     extent = float(np.ptp(gen.arr(tc["src"]), axis=0).max()) if pwa else 10.0
     centroid = gen.arr(tc["src"]).mean(axis=0) if pwa else None
     pool = []  # arrays passed so far (the very objects)
+    owners = {}  # id(array in the pool that aliases an owner's buffer) -> the owner's writeable array over the same memory
     results = []  # every array apply() handed back so far, with a snapshot of its values and the array it was given
     n_apply = 0
     reused = False
@@ -469,10 +535,12 @@ def c_history(case, ctx):
         elif k == "mutate_apply":
             x = pool[step[1] % len(pool)]
             r, cidx = step[2] % x.shape[0], step[3] % x.shape[1]
-            x[r, cidx] += step[4]
+            w = owners.get(id(x), x)  # an aliasing (possibly read-only) array is edited by the owner of its memory
+            old_val = float(w[r, cidx])
+            w[r, cidx] += step[4]
             if pwa and not pwa_safely_inside(tc["src"], trilist, x).all():
                 # a sliver triangle: the perturbed point would leave the domain - not this step's subject
-                x[r, cidx] -= step[4]
+                w[r, cidx] = old_val
                 ctx.event("perturbation leaves the domain: skipped")
                 continue
             reused = True
@@ -480,6 +548,86 @@ def c_history(case, ctx):
             # what earlier applies handed back must not follow the edit of the array they were given
             earlier_results_intact("in-place edit of an array passed earlier")
             do_apply(x, "apply_after_inplace_edit")
+        elif k == "apply_alias":
+            v0 = np.array(pool[step[1] % len(pool)], dtype=float, copy=True)
+            form = step[2]
+            view, twin = _alias(v0, form)
+            assert np.array_equal(view, v0 if form != "broadcast" else np.tile(v0[0], (v0.shape[0], 1))) and np.shares_memory(view, twin)
+            n = view.shape[0]
+            ctx.event("alias form=%s (%s)" % (form, "writeable" if view.flags.writeable else "read-only"))
+            pool.append(view)
+            owners[id(view)] = twin
+            reused = True
+
+            def outside_rows():
+                """Which rows of the view are out of the domain NOW (None: within rounding of its boundary)."""
+                if not pwa:
+                    return np.zeros(n, dtype=bool)
+                cur = np.array(view, dtype=float, copy=True)
+                bm = mesh_bary_min(tc["src"], trilist, cur)
+                out = bm < 0
+                if (np.abs(bm[out]) < 1e-9).any() or not pwa_safely_inside(tc["src"], trilist, cur[~out]).all():
+                    return None
+                return out
+
+            def apply_view(bs_spec, what):
+                nonlocal n_apply
+                bs = _bs(bs_spec, n)
+                out = outside_rows()
+                if out is None:  # (a sliver triangle: the two membership references disagree about the margin)
+                    ctx.event("aliasing array within rounding of the domain boundary: not applied")
+                    return
+                ctx.event("alias %s batch=%s" % (what, bs_spec))
+                if not out.any():
+                    do_apply(view, what, batch=bs)
+                    return
+                cur = np.array(view, copy=True)
+                n_apply += 1
+                try:
+                    t.apply(view, batch_size=bs)
+                    ctx.fail(what + ".out_of_domain.no_error", "the buffer now holds out-of-domain points %s, yet no TriangleContainmentError (batch_size=%r)"
+                             % (np.nonzero(out)[0].tolist(), bs))
+                except TriangleContainmentError as e:
+                    m = np.asarray(e.points_outside_source_domain)
+                    ctx.expect(m.shape == (n,) and np.array_equal(m.astype(bool), out), what + ".out_of_domain.mask_wrong_points",
+                               lambda: "mask %r, outside points %r (batch_size=%r)" % (m.astype(int).tolist(), out.astype(int).tolist(), bs))
+                ctx.expect(np.array_equal(cur, view), "argument_mutated", what)
+
+            apply_view(step[3], "apply_aliasing_array")
+            for e in step[4]:
+                other = pool[e["j"] % len(pool)]
+                if e["between"] == "before" and other is not view:
+                    do_apply(other, "apply_between_alias_and_owner_edit")
+                saved = np.array(twin, copy=True)
+                if e["k"] == "perturb":
+                    twin[e["i"] % n, e["j"] % twin.shape[1]] += e["dl"]
+                elif e["k"] == "refill":
+                    src_rows = np.array(pool[e["i"] % len(pool)], dtype=float, copy=True)
+                    twin[...] = np.array([src_rows[(i + e["j"]) % len(src_rows)] for i in range(n)])
+                else:
+                    if "hole" in e and dropped is not None and len(dropped):
+                        far = objs.bary_points(tc["src"], dropped, [e["hole"]])[0]
+                    else:
+                        far = centroid + 3.0 * extent * np.array([np.cos(e["ang"]), np.sin(e["ang"])])
+                    twin[e["i"] % n] = far
+                out = outside_rows()
+                if out is None:
+                    twin[...] = saved
+                    ctx.event("owner edit lands within rounding of the domain boundary: skipped")
+                    continue
+                ctx.event("owner edit=%s%s" % (e["k"], "" if not np.array_equal(saved, twin) else " (no value changed)"))
+                if out.any():
+                    ctx.event("owner edit leaves out-of-domain points in the buffer")
+                # what earlier applies handed back must not follow the owner's edit
+                earlier_results_intact("the owner's in-place edit of a buffer an applied array aliases")
+                if e["between"] == "after" and other is not view:
+                    do_apply(other, "apply_between_owner_edit_and_alias")
+                apply_view(e["bs"], "apply_aliasing_array_after_owner_edit")
+            out = outside_rows()
+            if out is None or out.any():
+                # leave the pooled array in-domain (and: a failed application must not poison the next one on that object)
+                twin[...] = v0
+                apply_view("none", "apply_aliasing_array_after_owner_edit")
         elif k == "apply_near":
             x = pool[step[1] % len(pool)].copy()
             r, cidx = step[2] % x.shape[0], step[3] % x.shape[1]
